@@ -1072,10 +1072,12 @@ def run(ctx):
     # (3) every crash point of every command of flavor 0 on pa from every state of the single-product universe
     # (the states come in flavor-symmetric pairs, so the commands of flavor 1 are covered up to renaming)
     cmds = [c for c in all_commands() if c["p"] == 0 and c["f"] == 0]
-    reserve = (0.25 if ctx.tier == "thorough" else 0.5) * max(0.0, ctx.deadline - time.time())   # for more random histories
+    # an escalated quick run stops starting new batches a minute before the deadline (a batch takes 20-60 s)
+    stop = ctx.deadline - (0 if ctx.tier == "thorough" else 90)
+    reserve = (0.25 if ctx.tier == "thorough" else 0.5) * max(0.0, stop - time.time())   # for more random histories
     batch, nst, complete = [], 0, True
     for hist in enum_states():
-        if time.time() > ctx.deadline - reserve:
+        if time.time() > stop - reserve:
             complete = False
             ctx.note("exhaustive enumeration stopped by the time budget after %d of 324 states" % nst)
             break
@@ -1083,21 +1085,21 @@ def run(ctx):
         nst += 1
         # an escalated quick run must end within a few minutes: small batches there (the deadline is looked at between
         # batches, and one batch of all crash points of ~17 commands per state is the unit), crash points sampled
-        if nst % (12 if ctx.tier == "thorough" else 2) == 0:
+        if nst % (12 if ctx.tier == "thorough" else 1) == 0:
             evaluate(ctx, batch, sample=(ctx.tier == "quick"))
             batch = []
-    if batch and not ctx.out_of_time():
+    if batch and time.time() < stop:
         evaluate(ctx, batch, sample=(ctx.tier == "quick"))
     ctx.hist("enumerated-states", nst)
     if complete:
         ctx.note("exhaustive: all 324 states of the single-product universe x %d commands x every crash point" % len(cmds))
-    while done < 120 and not ctx.out_of_time():
+    while done < 120 and time.time() < stop:
         if ctx.tier == "thorough":
             evaluate(ctx, gen_cases(ctx.rng, 6, 24))
             done += 6
         else:
-            evaluate(ctx, gen_cases(ctx.rng, 2, 6), sample=True)
-            done += 2
+            evaluate(ctx, gen_cases(ctx.rng, 1, 6), sample=True)
+            done += 1
     _floors(ctx)
 
 
